@@ -16,5 +16,5 @@ CONSTANTS
   NearMod = 1
   SliceMod = 1
   SliceRes = 0
-INVARIANTS InputWellFormed ImplSound ImplComplete GateSound AnnounceSound HashStable HashSensitive Conform
+INVARIANTS InputWellFormed ImplSound ImplComplete GateSound AnnounceSound HistorySound HashStable HashSensitive Conform
 CHECK_DEADLOCK FALSE
